@@ -61,7 +61,7 @@ class KeyGen:
 
 
 def gen_script(rng, tier, n_keys=None, storages=1, scans=True, dumps=True, inline_frac=0.1,
-               with_storage_ops=False, max_ops=None):
+               with_storage_ops=False, max_ops=None, phantoms=False):
     """one program: create storage(s), build, probe, delete, re-insert; returns list of op lines"""
     kg = KeyGen(rng, long_tail=(tier == "thorough"))
     if n_keys is None:
@@ -146,11 +146,41 @@ def gen_script(rng, tier, n_keys=None, storages=1, scans=True, dumps=True, inlin
             lt = "~%d" % rng.choice([0, 1, 3])
         ops.append("scan %s %s %s %s %s %d %d" % (hx(nm), lt, le, rt, re_, mx, rtl))
 
+    def phantom(nm):
+        # a read that collects node versions, then an insert of an absent key into the range it covered
+        ks = sorted(live[nm])
+        if rng.random() < 0.2:
+            k = endpoint_key(nm)
+            if k not in live[nm]:
+                ops.append("getmiss %s %s %s" % (hx(nm), hx(k), hx(b"ph")))
+                live[nm][k] = b"ph"
+            return
+        before = len(ops)
+        scan(nm)
+        a = ops.pop().split()
+        if len(ops) != before or a[2].startswith("~"):
+            return
+        lk = b"" if a[2] == "-" else bytes.fromhex(a[2])
+        rk = b"" if a[4] == "-" else bytes.fromhex(a[4])
+        cands = []
+        for base in ([lk, rk] + (rng.sample(ks, min(3, len(ks))) if ks else [])):
+            cands += [base, base + b"\x00", base[:-1], base[:8], base + b"\xff", base[:-1] + b"\x01" if base else b"\x01"]
+            if len(base) >= 8:
+                cands += [base[:8] + b"\x00", base[:7]]
+        rng.shuffle(cands)
+        k = next((c for c in cands if c not in live[nm]), None)
+        if k is None:
+            return
+        ops.append("phantom %s %s" % (" ".join(a[1:]), hx(k) + " " + hx(b"ph")))
+        live[nm][k] = b"ph"   # (only inserted when the driver finds it covered; the generator's view may differ)
+
     def probe(nm, n):
         for _ in range(n):
             r = rng.random()
             ks = list(live[nm])
-            if r < 0.45:
+            if phantoms and r < 0.5:
+                phantom(nm)
+            elif r < 0.45:
                 k = rng.choice(ks) if ks and rng.random() < 0.7 else endpoint_key(nm)
                 ops.append("get %s %s" % (hx(nm), hx(k)))
             elif scans:
@@ -355,7 +385,7 @@ def run_script(tag, ops, name="s"):
     return r
 
 
-NOSPEC = ("init", "fin", "enter", "leave", "dump", "mem")
+NOSPEC = ("init", "fin", "enter", "leave", "dump", "mem", "phantom", "getmiss")
 
 
 def compare(r, categories):
